@@ -1,0 +1,23 @@
+//go:build verif
+
+// Verification hooks: thin exported accessors and wrappers around unexported
+// functions and state, compiled only with the "verif" build tag. Nothing here
+// changes the behaviour of the package; without the tag this file is ignored.
+
+package memberlist
+
+import (
+	"bytes"
+)
+
+// VerifEncryptPayload wraps encryptPayload.
+func VerifEncryptPayload(vsn uint8, key, msg, data []byte) ([]byte, error) {
+	var buf bytes.Buffer
+	err := encryptPayload(encryptionVersion(vsn), key, msg, data, &buf)
+	return buf.Bytes(), err
+}
+
+// VerifDecryptPayload wraps decryptPayload.
+func VerifDecryptPayload(keys [][]byte, msg, data []byte) ([]byte, error) {
+	return decryptPayload(keys, msg, data)
+}
